@@ -1,13 +1,171 @@
-import VncModel.Client.Session
+import VncModel.Client.Guards
 /-!
 # C08 — No server input can corrupt memory or wedge LibVNCClient  (property theorems)
 
-(under construction: the theorems are added below as they are proved)
+A theorem cannot speak about C memory; what is modelled and proven is every *guard and index
+computation* the anchors name (model: `VncModel/Client/*.lean`, the same model that C07 uses and
+that `./check C08` compares with the real library on hostile streams under ASan/UBSan).
+The model follows the FIXED code (commits 5d30074 ultrazip-bounds, 0669b47 tight-row-overrun,
+9e7946d tight-gradient-width, ca36572 tight-nozlib-length, 519e999 tight-jpeg16-buffer, c577beb
+trle-run-buffer, 0bc8fdc zrle-tile-bounds, 543571f cursor-size-overflow).
+
+## Theorems (all for ALL arguments)
+* `writes_inside_framebuffer`: `CheckRect` ⇒ every cell written by `FillRectangle`, read/written
+  by `CopyRectangleFromRectangle`, and every byte range `memcpy`ed by `CopyRectangle` lies inside
+  the `width·height·bytespp` bytes of the framebuffer; `checkRect_int_*`: the guard with C `int`s
+  is sound for non-negative arguments (all callers: unsigned wire fields) and NOT for negative ones.
+* `rect_too_large_guard`: a pixel rectangle that leaves the framebuffer is rejected before any
+  decoder runs (all encodings but UltraZip, whose sub-rectangles go through `CheckRect`), and the
+  tiles of the tile loops stay inside the rectangle, so the unchecked direct writes of
+  trle.c/zrle.c/tight.c are inside the framebuffer.
+* `malloc_framebuffer_no_overflow`, `length_caps`, `corre_subrect_bound`, `buffer_arithmetic`
+  (Raw batching, Hextile, TRLE, Tight window/palette/gradient rows), `trle_run_bounded`.
+* `ultrazip_walk_in_bounds` (fixed code) and `ultrazip_walk_unfixed_counterexample` (the walk
+  before the fix reads beyond the decompressed data — DESIGN §11-j, witness corpus/C08/ultrazip-walk).
+* `progress_or_fail`: RRE consumes exactly `n·(bytespp+8)` bytes or fails, every run-length read
+  consumes a byte, the Raw loop's fuel is never the reason for stopping; all other modelled loops
+  are structural recursions over finite tile lists / counters (Lean's termination checker), and
+  `read_buffering_invariant` (C07) gives: fewer bytes than requested ⇒ `ReadFromRFBServer` fails.
+
+## Partial
+Memory safety of code outside the modelled guards (zlib/LZO/libjpeg internals, the TLS/SASL/auth
+handlers, text chat, extensions) is sampled by the sanitizer run, not proven.  `zrleTile`'s
+"consumed ≤ available" is established per sub-encoding by the refinement proofs of C07 for valid
+data and by the length checks in the model for hostile data; it is not stated as one theorem.
 -/
 namespace VncModel.Props.C08
-open VncModel.Client VncModel.Enc.Spec VncModel.Gen.C07
+open VncModel.Client
+open VncModel.Enc.Spec hiding encRaw encCopyRect encRRE encCoRRE encHextile encZlib encTight encUltra encTRLE encZRLE encZYWRLE encLastRect tightMinToCompress
+open VncModel.Gen.C07
 
-/-- length cap of the cut text, as extracted from the source (`1<<20`) -/
-theorem cutTextCap_value : cutTextCap = 2 ^ 20 := by decide
+/-! ## writes_inside_framebuffer -/
+
+theorem writes_inside_framebuffer (fb : FB) (hwf : fb.WF) :
+    (∀ x y w h, checkRect fb x y w h = true → ∀ i ∈ fillIdx fb.w x y w h, i < fb.px.size) ∧
+    (∀ sx sy w h dx dy, checkRect fb sx sy w h = true → checkRect fb dx dy w h = true →
+      ∀ p ∈ copyPairs fb.w sx sy w h dx dy, p.1 < fb.px.size ∧ p.2 < fb.px.size) ∧
+    (∀ x y w h r b, checkRect fb x y w h = true → r < h →
+      x * b + (y + r) * (fb.w * b) + w * b ≤ fb.w * fb.h * b) := by
+  unfold FB.WF at hwf
+  refine ⟨?_, ?_, ?_⟩
+  · intro x y w h hc
+    simp only [checkRect, Bool.and_eq_true, decide_eq_true_eq] at hc
+    rw [hwf]; exact fillIdx_lt hc.1 hc.2
+  · intro sx sy w h dx dy hs hd
+    simp only [checkRect, Bool.and_eq_true, decide_eq_true_eq] at hs hd
+    rw [hwf]; exact copyPairs_lt hs.1 hs.2 hd.1 hd.2
+  · intro x y w h r b hc hr
+    simp only [checkRect, Bool.and_eq_true, decide_eq_true_eq] at hc
+    exact copyRect_row_in_bounds hc.1 hc.2 hr
+
+/-- the model's `FillRectangle` writes exactly the cells of `fillIdx` -/
+theorem fillRectangle_writes (cv : Array Pixel) (W x y w h : Nat) (c : Pixel) :
+    fillRect cv W x y w h c = (fillIdx W x y w h).foldl (fun a i => a.setIfInBounds i c) cv :=
+  fillRect_eq_foldl cv W x y w h c
+
+theorem checkRect_int_sound {W H x y w h : Int} (hx : 0 ≤ x) (hy : 0 ≤ y) (hw : 0 ≤ w) (hh : 0 ≤ h)
+    (hc : checkRectI W H x y w h = true) :
+    x.toNat + w.toNat ≤ W.toNat ∧ y.toNat + h.toNat ≤ H.toNat :=
+  checkRectI_sound hx hy hw hh hc
+
+/-- `CheckRect` alone does not protect against a negative origin: it passes for `x = -5` -/
+theorem checkRect_int_negative_unsound : ∃ W H x y w h : Int, checkRectI W H x y w h = true ∧ x < 0 :=
+  ⟨10, 10, -5, 0, 3, 3, by decide, by decide⟩
+
+/-! ## rect_too_large_guard -/
+
+/-- the pixel-data encodings (all but UltraZip) are refused when the rectangle leaves the
+framebuffer (`rfbclient.c`: "Rect too large") -/
+theorem rect_too_large_guard (s : St) (hd : RectHdr) (bs : Bytes)
+    (henc : hd.enc = encRaw ∨ hd.enc = encCopyRect ∨ hd.enc = encRRE ∨ hd.enc = encCoRRE ∨ hd.enc = encHextile ∨
+      hd.enc = encZlib ∨ hd.enc = encTight ∨ hd.enc = encUltra ∨ hd.enc = encTRLE ∨ hd.enc = encZRLE)
+    (hout : hd.x + hd.w > s.fb.w ∨ hd.y + hd.h > s.fb.h) :
+    handleRect s hd bs = .no := by
+  obtain ⟨x, y, w, h, e⟩ := hd
+  simp only at henc hout
+  rcases henc with rfl | rfl | rfl | rfl | rfl | rfl | rfl | rfl | rfl | rfl <;>
+    simp [handleRect, encRaw, encCopyRect, encRRE, encCoRRE, encHextile, encZlib, encTight, encUltra, encTRLE,
+      encZRLE, encXCursor, encRichCursor, encPointerPos, encKeyboardLedState, encNewFBSize, encExtDesktopSize,
+      encSupportedMessages, encSupportedEncodings, encServerIdentity, encUltraZip, hout]
+
+/-- … and inside an accepted rectangle every tile of the 16/64 tile loops is inside the framebuffer -/
+theorem tiles_inside_framebuffer {T W H rx ry rw rh : Nat} (hT : 0 < T) (hW : rx + rw ≤ W) (hH : ry + rh ≤ H)
+    {t : TileRect} (ht : t ∈ tileGrid T ⟨rw, rh⟩) :
+    ∀ i ∈ fillIdx W (rx + t.x) (ry + t.y) t.w t.h, i < W * H :=
+  tile_cells_in_bounds hT hW hH ht
+
+/-! ## malloc_framebuffer_no_overflow -/
+
+theorem malloc_framebuffer_no_overflow {w h bpp : Nat} (hw : w < 65536) (hh : h < 65536) (hb : bpp ≤ 32) :
+    (w * h % 2 ^ 64 * bpp % 2 ^ 64) / 8 = w * h * bpp / 8 ∧ w * h * bpp / 8 < sizeMax :=
+  mallocSize_exact hw hh hb
+
+/-! ## length_caps -/
+
+/-- reason, desktop name and cut text: an accepted length is at most the cap (`1<<20`, T0) — the
+allocation is `len+1` bytes — for every 32-bit field value, including the "negative" cut-text
+lengths of the extended clipboard -/
+theorem length_caps :
+    (∀ v n, capLen reasonCap v = some n → n ≤ 2 ^ 20) ∧
+    (∀ v n, capLen nameCap v = some n → n ≤ 2 ^ 20) ∧
+    (∀ v n, cutTextLen v = some n → n ≤ 2 ^ 20) := by
+  refine ⟨fun v n h => ?_, fun v n h => ?_, fun v n h => ?_⟩
+  · have := (capLen_le h).1; simpa [reasonCap] using this
+  · have := (capLen_le h).1; simpa [nameCap] using this
+  · have := cutTextLen_le h; simpa [cutTextCap] using this
+
+/-! ## buffer arithmetic -/
+
+theorem corre_subrect_bound {bpp n : Nat} (h : correGuard bpp n = true) : n * (4 + bpp) ≤ rfbBufferSize :=
+  correGuard_fits h
+
+theorem buffer_arithmetic :
+    (∀ bpl h, min (rfbBufferSize / bpl) h * bpl ≤ rfbBufferSize) ∧
+    (∀ bpp w h n, bpp ≤ 4 → w ≤ 16 → h ≤ 16 → n ≤ 255 →
+      w * h * bpp ≤ rfbBufferSize ∧ n * (2 + bpp) ≤ rfbBufferSize) ∧
+    (∀ bits bpp w k tps, 1 ≤ bits → 1 ≤ bpp → k ≤ 256 → tps ≤ 4 → w * 3 ≤ tightThisRowCells →
+      rfbBufferSize * bits / (bits + bpp) / 4 * 4 ≤ rfbBufferSize ∧ k * tps ≤ tightPaletteBytes ∧
+      w * 3 * 2 ≤ tightPrevRowBytes) :=
+  ⟨raw_batch_fits, fun _ _ _ _ hb hw hh hn => hextile_reads_fit hb hw hh hn,
+   fun _ _ _ _ _ h1 h2 h3 h4 h5 => tight_buffers_fit h1 h2 h3 h4 h5⟩
+
+theorem trle_run_bounded (budget acc : Nat) (bs rest : Bytes) (len : Nat)
+    (h : trleRunLen budget acc bs = some (len, rest)) :
+    rest.length < bs.length ∧ bs.length - rest.length ≤ budget + 1 :=
+  trleRunLen_consumes budget acc bs rest len h
+
+/-! ## ultrazip_walk_in_bounds -/
+
+theorem ultrazip_walk_in_bounds (bpp len : Nat) (hdr : Nat → Nat × Nat × Bool) (n : Nat)
+    (acc : List (Nat × Nat)) (h : uzWalk bpp len hdr n 0 = some acc) : ∀ r ∈ acc, r.1 + r.2 ≤ len :=
+  uzWalk_in_bounds bpp len hdr n 0 acc (Nat.zero_le _) h
+
+/-- before the fix: 2 claimed entries over 12 decompressed bytes read at offset 12 -/
+theorem ultrazip_walk_unfixed_counterexample :
+    ∃ (hdr : Nat → Nat × Nat × Bool) (n len : Nat), ∃ r ∈ uzWalkUnfixed 4 hdr n 0, r.1 + r.2 > len :=
+  ⟨fun _ => (0, 0, false), 2, 12, (12, 12), by decide, by decide⟩
+
+/-! ## progress_or_fail -/
+
+theorem progress_or_fail :
+    (∀ bpp rx ry n fb fb' bs rest, rreSubs bpp rx ry n fb bs = some (fb', rest) →
+      bs.length = n * (bpp + 8) + rest.length) ∧
+    (∀ bs rest n, runLenC bs = some (n, rest) → rest.length < bs.length ∧ 1 ≤ n) ∧
+    (∀ bpp x w ltr f1 f2 fb y h bs, 1 ≤ ltr → h ≤ f1 → h ≤ f2 →
+      rawLoop bpp x w ltr f1 fb y h bs = rawLoop bpp x w ltr f2 fb y h bs) :=
+  ⟨fun bpp rx ry n fb fb' bs rest h => rreSubs_consumes bpp rx ry n fb fb' bs rest h,
+   fun bs rest n h => runLenC_progress bs rest n h,
+   fun bpp x w ltr f1 f2 fb y h bs hl h1 h2 => rawLoop_fuel_irrelevant bpp x w ltr hl f1 f2 fb y h bs h1 h2⟩
+
+/-! ## non-vacuity -/
+
+example : checkRect (FB.blank 8 4) 5 1 3 3 = true ∧ (FB.blank 8 4).WF := by
+  refine ⟨by decide, by simp [FB.WF, FB.blank]⟩
+example : correGuard 4 38400 = true ∧ correGuard 4 38401 = false := by decide
+example : cutTextLen (2 ^ 32 - 5) = some 5 ∧ cutTextLen (2 ^ 20 + 1) = none ∧ cutTextLen (2 ^ 31) = none := by decide
+example : uzWalk 4 40 (fun o => if o = 0 then (2, 2, true) else (0, 0, false)) 2 0 =
+    some [(0, 12), (12, 16), (28, 12)] := by decide
+example : uzWalk 4 39 (fun o => if o = 0 then (2, 2, true) else (0, 0, false)) 2 0 = none := by decide
+example : trleRunLen 3 1 [255, 255, 7, 9] = some (518, [9]) := by decide
 
 end VncModel.Props.C08
